@@ -60,8 +60,8 @@ def cases(tier, seed):
         for rep in range(2 if tier == "quick" else 12):
             out.append({"t": "paused-call", "line": line, "rep": rep, "loss": ["eof", "eof", "close-ack"][rep % 3] if line < 8 else "eof"})
     # real TCP races under yield injection
-    nt = 48 if tier == "quick" else 1200
-    kinds = ["server-eval-fails", "clic-while-pending", "call-after-clic", "srv0-while-pending"]
+    nt = 60 if tier == "quick" else 1500
+    kinds = ["server-eval-fails", "clic-while-pending", "call-after-clic", "srv0-while-pending", "server-missing-symbol"]
     for i in range(nt):
         out.append({"t": "tcp", "kind": kinds[i % len(kinds)], "pending": rng.randint(0, 3), "yseed": rng.randrange(10 ** 9)})
     return out
